@@ -442,10 +442,10 @@ def _read_string(fp):
     "encode_key": '''
 def encode_key(key, value=None, value_type="str"):
     if value is None:
-        return struct.pack("I", len(key)) + key.encode()
+        return struct.pack("I", len(key.encode())) + key.encode()
     if value_type == "str" and isinstance(value, str):
-        return struct.pack("I", len(key)) + key.encode() + struct.pack("I", len(value)) + value.encode()
-    return struct.pack("I", len(key)) + key.encode() + struct.pack(value_type, value)
+        return struct.pack("I", len(key.encode())) + key.encode() + struct.pack("I", len(value.encode())) + value.encode()
+    return struct.pack("I", len(key.encode())) + key.encode() + struct.pack(value_type, value)
 ''',
     "encode_header": '''
 def encode_header(header):
